@@ -48,13 +48,20 @@ fn check_string(ctx: &mut Ctx, family: &str, idx: u64, s: &str) {
     let want = grammar(s);
     let case = || json!({"family": family, "idx": idx, "string": s});
     let got = monitor::guard(|| {
-        Name::new(s).ok().map(|n| {
+        // the TryFrom<&str> route is the same constructor
+        let via_try_from = <Name as std::convert::TryFrom<&str>>::try_from(s).ok();
+        let direct = Name::new(s).ok();
+        if via_try_from.is_some() != direct.is_some() || via_try_from.as_ref().zip(direct.as_ref()).map(|(a, b)| bridge::obs_name(a) != bridge::obs_name(b)).unwrap_or(false) {
+            panic!("VERIF-ORACLE Name::try_from(&str) and Name::new disagree");
+        }
+        direct.map(|n| {
             let text = n.to_string();
             let again = Name::new(&text).map(|m| m == n).unwrap_or(false);
             (bridge::obs_name(&n), text, again)
         })
     });
     match (got, want) {
+        (Err(pn), _) if pn.message.contains("VERIF-ORACLE") => ctx.violation("validation", "try-from-str-differs-from-new", format!("Name::try_from({:?}) and Name::new({:?}) disagree", s, s), case()),
         (Err(pn), _) => ctx.panic_violation("Name::new/to_string", &pn, case()),
         (Ok(None), None) => ctx.count("rejected_as_expected"),
         (Ok(Some(_)), None) => ctx.violation("validation", "invalid-name-accepted", format!("Name::new accepted {:?}", s), case()),
